@@ -24,44 +24,60 @@ func checkC18(w *World, r *Report) {
 	c18Pooled(w, r)
 	c18Codec(w, r)
 	c18Compressors(w, r)
+	c18Wiring(w, r)
 }
 
 func c18Framing(w *World, r *Report) {
 	ob := r.Ob("C18.a", "a-framing-agreement", "snapshotFile.Write: PutUint64 of uint64(len(p)) by binary.LittleEndian into the length buffer, the buffer then p are written, an empty p writes nothing; snapshotFile.Read: ReadFull of the same length buffer, Uint64 by binary.LittleEndian, ReadFull of p[:size]; the length buffer has 8 bytes; SST stream: binary.Write(LittleEndian, uint64(Len())) then the bytes vs binary.Read(LittleEndian, *uint64) then LimitReader(size)", "a prefix of another width or byte order on one side desynchronises the record boundaries: every later record is garbage")
 	wr := w.Func("replication/snapshot", "snapshotFile.Write")
 	rd := w.Func("replication/snapshot", "snapshotFile.Read")
-	nf := w.Func("replication/snapshot", "newFile")
-	if wr == nil || rd == nil || nf == nil {
-		ob.Undecided("anchor", "snapshot file Read/Write/newFile not found")
+	if wr == nil || rd == nil {
+		ob.Undecided("anchor", "snapshot file Read/Write not found")
 		return
 	}
-	// length buffer size
-	eachInstr(nf, func(in ssa.Instruction) {
-		st, ok := in.(*ssa.Store)
-		if !ok {
-			return
+	// length buffer size: every place of the package that sets the buffer (the constructor, or
+	// the open functions when it is written out in them)
+	lenStores := 0
+	var lenFns []*ssa.Function
+	for _, fn := range w.ModFuncs() {
+		if fn.Pkg != nil && strings.HasSuffix(fn.Pkg.Pkg.Path(), "/replication/snapshot") {
+			lenFns = append(lenFns, fn)
 		}
-		if fa, ok := st.Addr.(*ssa.FieldAddr); ok && fieldAddrName(fa) == "lenBuff" {
-			e := Expr(st.Val)
-			ob.Site(in.Pos(), "length buffer "+e)
-			okLen := false
-			if sl, ok := st.Val.(*ssa.Slice); ok {
-				if al, ok := sl.X.(*ssa.Alloc); ok {
-					if arr, ok := deref(al.Type()).Underlying().(*types.Array); ok && arr.Len() == 8 {
+	}
+	defer func() {
+		if lenStores == 0 {
+			ob.Undecided("anchor", "no place of the snapshot package sets the length buffer (lenBuff)")
+		}
+	}()
+	for _, nf := range lenFns {
+		eachInstr(nf, func(in ssa.Instruction) {
+			st, ok := in.(*ssa.Store)
+			if !ok {
+				return
+			}
+			if fa, ok := st.Addr.(*ssa.FieldAddr); ok && fieldAddrName(fa) == "lenBuff" {
+				e := Expr(st.Val)
+				ob.Site(in.Pos(), "length buffer "+e)
+				lenStores++
+				okLen := false
+				if sl, ok := st.Val.(*ssa.Slice); ok {
+					if al, ok := sl.X.(*ssa.Alloc); ok {
+						if arr, ok := deref(al.Type()).Underlying().(*types.Array); ok && arr.Len() == 8 {
+							okLen = true
+						}
+					}
+				}
+				if ms, ok := st.Val.(*ssa.MakeSlice); ok {
+					if n, isC := constInt(ms.Len); isC && n == 8 {
 						okLen = true
 					}
 				}
-			}
-			if ms, ok := st.Val.(*ssa.MakeSlice); ok {
-				if n, isC := constInt(ms.Len); isC && n == 8 {
-					okLen = true
+				if !okLen {
+					ob.Violate("prefix-buffer-width", in.Pos(), "the length buffer is not 8 bytes wide")
 				}
 			}
-			if !okLen {
-				ob.Violate("prefix-buffer-width", in.Pos(), "the length buffer is not 8 bytes wide")
-			}
-		}
-	})
+		})
+	}
 	type side struct {
 		order, width, buf string
 	}
@@ -695,6 +711,131 @@ func c18Compressors(w *World, r *Report) {
 			}
 		})
 		_ = nrp
+		// every pooled wrapper owns its codec object: the function a pool's New holds creates what
+		// it returns (no writer / reader / codec pointer captured from outside the New function)
+		for _, fn := range w.ModFuncs() {
+			if fn.Package() == nil && fn.Parent() == nil {
+				continue
+			}
+			top := fn
+			for top.Parent() != nil {
+				top = top.Parent()
+			}
+			if top.Package() == nil || top.Package().Pkg.Path() != modPath+"/"+rel {
+				continue
+			}
+			eachInstr(fn, func(in ssa.Instruction) {
+				st, ok := in.(*ssa.Store)
+				if !ok {
+					return
+				}
+				fa, ok := st.Addr.(*ssa.FieldAddr)
+				if !ok || fieldAddrName(fa) != "New" || !typeIs(fa.X.Type(), "sync", "Pool") {
+					return
+				}
+				mc, ok := st.Val.(*ssa.MakeClosure)
+				if !ok {
+					return
+				}
+				ob.Site(in.Pos(), pkg+": pool constructor")
+				for _, b := range mc.Bindings {
+					t := deref(deref(b.Type()))
+					n, isNamed := t.(*types.Named)
+					if !isNamed || n.Obj().Pkg() == nil {
+						continue
+					}
+					pp := n.Obj().Pkg().Path()
+					if pp == modPath+"/"+rel || pp == "sync" {
+						continue // the compressor itself / its pools
+					}
+					ob.Violate("pool-shares-codec/"+pkg, in.Pos(), pkg+": the pool's constructor captures a "+typeString(n)+" created outside it: every pooled wrapper shares that one object, and two calls that compress or decompress at the same time write through it together")
+				}
+			})
+		}
 	}
 	ob.NeedFloor(12)
+}
+
+// c18Wiring: C18.f — (1) no shared receive-buffer pool under a codec that decodes without
+// copying; (2) the backup client streams, for each table, the file it opened for that table.
+func c18Wiring(w *World, r *Report) {
+	ob := r.Ob("C18.f", "f-buffers-owned", "the module installs no gRPC receive-buffer pool (experimental.RecvBufferPool / a shared buffer pool option) while its registered codec decodes with UnmarshalVTUnsafe, whose byte fields alias the receive buffer; in the backup client's restore loop the source of the chunk copy is created inside the iteration from the file opened in that iteration (the opened file itself or a reader constructed on it)", "a receive buffer handed back to a pool while the decoded request still points into it is overwritten by the next message; a reader bound to the first table's file streams nothing for every later table, and the server restores them empty")
+	// (1)
+	unsafeCodec := false
+	for _, fn := range w.ModFuncs() {
+		if fn.Package() == nil || fn.Package().Pkg.Path() != modPath+"/regattaserver/encoding/proto" {
+			continue
+		}
+		eachInstr(fn, func(in ssa.Instruction) {
+			if c := callOf(in); c != nil && c.IsInvoke() && c.Method.Name() == "UnmarshalVTUnsafe" {
+				unsafeCodec = true
+				ob.Site(in.Pos(), "codec decodes with UnmarshalVTUnsafe in "+FnName(fn))
+			}
+		})
+	}
+	for _, fn := range w.ModFuncs() {
+		if isGenerated(fn) {
+			continue
+		}
+		eachInstr(fn, func(in ssa.Instruction) {
+			c := callOf(in)
+			if c == nil {
+				return
+			}
+			n := CalleeName(c)
+			if strings.Contains(n, "google.golang.org/grpc") && (strings.HasSuffix(n, ".RecvBufferPool") || strings.HasSuffix(n, ".NewSharedBufferPool")) {
+				ob.Site(in.Pos(), "receive buffer pool option in "+FnName(fn))
+				if unsafeCodec {
+					ob.Violate("recv-buffer-pool@"+FnName(fn), in.Pos(), FnName(fn)+" installs a shared gRPC receive-buffer pool, but the registered codec decodes with UnmarshalVTUnsafe: the bytes of a request a handler still holds are overwritten by the next message received")
+				}
+			}
+		})
+	}
+	// (2)
+	if fn := w.Func("replication/backup", "Backup.Restore"); fn != nil {
+		n := 0
+		eachInstr(fn, func(in ssa.Instruction) {
+			c := plainCall(in)
+			if c == nil || CalleeName(c) != "io.Copy" {
+				return
+			}
+			// the copy into the stream writer
+			dst := c.Args[0]
+			if mi, ok := dst.(*ssa.MakeInterface); ok {
+				dst = mi.X
+			}
+			if !typeIs(dst.Type(), modPath+"/replication/backup", "Writer") && !typeIs(dst.Type(), modPath+"/replication/snapshot", "Writer") {
+				return
+			}
+			n++
+			h, body := loopOf(in.Block())
+			src := c.Args[1]
+			for d := 0; d < 4; d++ {
+				if mi, ok := src.(*ssa.MakeInterface); ok {
+					src = mi.X
+					continue
+				}
+				break
+			}
+			ob.Site(in.Pos(), "restore streams "+Expr(src))
+			if h == nil {
+				ob.Violate("restore-copy-not-in-loop", in.Pos(), "the chunk copy is not inside the loop over the manifest's tables")
+				return
+			}
+			def, ok := src.(ssa.Instruction)
+			if !ok || def.Block() == nil || !body[def.Block()] {
+				ob.Violate("restore-source-stale", in.Pos(), "the restore streams from `"+Expr(src)+"`, which is not created in the iteration that opened the table's file: every table after the first is streamed from the first table's exhausted reader and restored empty")
+				return
+			}
+			if _, isPhi := src.(*ssa.Phi); isPhi {
+				ob.Violate("restore-source-stale", in.Pos(), "the restore streams from a reader that can be carried over from an earlier iteration (`"+Expr(src)+"`)")
+			}
+		})
+		if n == 0 {
+			ob.Undecided("shape/restore", "no chunk copy into the stream writer in Backup.Restore")
+		}
+	} else {
+		ob.Undecided("anchor/restore", "Backup.Restore not found")
+	}
+	ob.NeedFloor(2)
 }
